@@ -297,10 +297,20 @@ def run_scalar(case, ctx):
                         'get_value() on parsed scalar %r returned %r, a load constructs %r'
                         % (text, got, want))
         return
-    v = lit(case['set'])
     base = T.compose_raw(T.render_flow(case['on']))
     node = yatiml.Node(base)
+    for spec_v in [case['set']] + ([case['then']] if case.get('then') else []):
+        if not set_and_check(case, ctx, node, spec_v):
+            return
+
+
+def set_and_check(case, ctx, node, spec_v):
+    v = lit(spec_v)
+    case = dict(case, set=spec_v)
     ctx.count('set_value_' + case['set'][0])
+    if isinstance(node.yaml_node, yaml.ScalarNode) and node.yaml_node.value == (
+            'true' if v is True else 'false' if v is False else '' if v is None else str(v)):
+        ctx.count('set_value_same_text_as_before')
     try:
         node.set_value(v)
         got = node.get_value()
@@ -308,17 +318,18 @@ def run_scalar(case, ctx):
     except Exception as e:
         ctx.finding('scalar', 'set_get_raises:' + exc_signature(e),
                     'set_value(%r) / get_value() raised %s: %s' % (v, type(e).__name__, e))
-        return
-    ctx.nontriv(['set', case['set'], case['on']])
+        return False
+    ctx.nontriv(['set', case['set'], case['on'], case.get('then')])
     if not same_scalar(got, v) or not ok_type:
         ctx.finding('scalar', 'set_then_get:' + case['set'][0],
-                    'set_value(%r) then get_value() -> %r, is_scalar(%s) -> %r'
-                    % (v, got, type(v).__name__, ok_type))
+                    'on %s: set_value(%r) then get_value() -> %r, is_scalar(%s) -> %r'
+                    % (T.render_flow(case['on']), v, got, type(v).__name__, ok_type))
     others = [t for t in (str, int, float, bool, None)
               if node.is_scalar(t) and t is not (None if v is None else type(v))]
     if others:
         ctx.finding('scalar', 'set_then_is_scalar_other',
                     'after set_value(%r) is_scalar is also true for %r' % (v, others))
+    return True
 
 
 # ---------------------------------------------------------------------------
@@ -499,9 +510,35 @@ def set_cases():
                                       T.S('true'), T.S('1.5')]))
 
 
+SAME_ON = [T.S('1'), T.S('1', '"'), T.S('true'), T.S('true', '"'), T.S('1.5'), T.S('1.5', "'"),
+           T.S('~'), T.S(''), T.S('', '"'), T.S('None', '"'), T.S('x'), T.S('7'), T.S('false'),
+           T.S('1', '', '!!str'), T.S('1', '', '!!float')]
+SAME_VALS = [['int', 1], ['str', '1'], ['bool', True], ['str', 'true'], ['float', '1.5'],
+             ['str', '1.5'], ['none'], ['str', ''], ['str', 'None'], ['str', 'x'], ['int', 7],
+             ['str', '7'], ['bool', False], ['str', 'false'], ['float', '1.0'], ['str', '~']]
+
+
+def enum_same_text(shard, nshards):
+    """A scalar whose text already is the string form of the new value, of
+    another or the same type; then a second set_value on the same Node."""
+    i = 0
+    for on in SAME_ON:
+        for v in SAME_VALS:
+            for then in [None] + SAME_VALS:
+                if i % nshards == shard:
+                    c = {'kind': 'scalar', 'set': v, 'on': on}
+                    if then is not None:
+                        c['then'] = then
+                    yield c
+                i += 1
+
+
 def phases(tier):
     quick = tier != 'thorough'
     return [
+        EnumPhase('set_value_same_text', enum_same_text,
+                  'every (scalar node, value, second value) over %d nodes and %d values whose '
+                  'texts coincide across types' % (len(SAME_ON), len(SAME_VALS))),
         HypPhase('op_histories', op_cases(), 250 if quick else 4000),
         EnumPhase('scalar_spellings', enum_scalars,
                   'every spelling of the C09 word lists plus integer/null/quoted/tagged spellings'),
